@@ -142,13 +142,16 @@ def main():
       '   own scratch worktree (nothing from `/verif`) and wrote two changes that break the property, still compile and\n'
       '   pass the pinned suite, with a demonstration test. I confirmed each one myself (`tools/verify_seed.sh`: demo\n'
       '   passes on the pristine tree, fails with the patch, pinned suite of the touched module passes with the patch)\n'
-      '   and kept it as `seeded/<id>-<k>/` (patch.diff, demonstration, DEMO.md, meta.json). Two rounds of two changes\n'
-      '   per property (the second round was told what the first had produced and asked for something different):\n'
-      '   80 changes, about 70 distinct. **Round 1: 32 of 40 caught by the owning check at the first try; round 2: 28\n'
-      '   of 40.** Each miss showed a real weakness - a workload that was too narrow (unusual configurations above\n'
-      '   all), an oracle that was sound but too weak, or an observation taken too late - and was closed by\n'
-      '   strengthening the monitor, never by special-casing the change. After that all 80 are caught, with one\n'
-      '   deliberate exception (C19-3, see the table):\n')
+      '   and kept it as `seeded/<id>-<k>/` (patch.diff, demonstration, DEMO.md, meta.json). Three rounds of two changes\n'
+      '   per property (every later round was told what the earlier ones had produced and asked for something\n'
+      '   different: another mechanism, code site or trigger): rounds 1 and 2 for all 20 properties, round 3 for the 14\n'
+      '   behavioural properties of the priority / join / limit disciplines and the rest (C04 C10 C13 C14 C18 C20) in a\n'
+      '   final round: %d changes. **Caught by the owning check at the first try: round 1: 32 of 40; round 2: 28 of 40;\n'
+      '   round 3: 19 of 28; last round: 10 of 12.** Each miss showed a real weakness - a workload that was too\n'
+      '   narrow (unusual configurations above all), an oracle that was sound but too weak, an observation taken too\n'
+      '   late, or instrumentation that synchronised what it was supposed to watch - and was closed by strengthening\n'
+      '   the monitor, never by special-casing the change. After that all are caught by the owning check, with two\n'
+      '   deliberate exceptions (C19-3 and C05-5, see the table and the notes in their `meta.json`):\n' % len(glob.glob(os.path.join(V, 'seeded', '*', ''))))
     w('   | change | what it does / what it needs | caught by | first try |')
     w('   |---|---|---|---|')
     for d in sorted(glob.glob(os.path.join(V, 'seeded', '*', ''))):
@@ -174,7 +177,16 @@ def main():
       '   return of GracefulStop is judged when it is observed (never-early conditions for C07, census for C19). The\n'
       '   misses of round 2 were mostly about unusual inputs, so the generators were also widened where nobody had\n'
       '   asked yet: nil Ctx, buffered Released channel, zero / negative timeouts, two concurrent Stop calls, Stop with\n'
-      '   cancel, repeated Stop / GracefulStop after termination, Interval of 1 ns and of months. `meta.json` of each\n'
+      '   cancel, repeated Stop / GracefulStop after termination, Interval of 1 ns and of months. Round 3: C01-5 -> v1\n'
+      '   configurations in which the divider leaves a priority without share are driven with the safety oracles only;\n'
+      '   C02-5 -> RemoveInput of inputs that were closed and seen drained; C02-6 -> the caller overwrites its Inputs map\n'
+      '   after New; C06-5 -> C06 got the v1 add/remove block and counts a normal termination with undelivered items\n'
+      '   as a (finite) refutation of eventual delivery; C07-5 -> a spin of the harness itself; C07-6 -> idle periods\n'
+      '   much longer than the progress window before the last close / before a progress probe; C16-5 -> the\n'
+      '   Handle-running observation is taken at the return of every one of several overlapping Stop() calls; C19-5 ->\n'
+      '   runs that never read Err() after a divider fault; C05-5 -> not caught, and not catchable soundly (section 5,\n'
+      '   C05). Last round: C20-5 / C20-6 -> the race detector had been blinded by the monitors themselves (mutex of\n'
+      '   the divider monitor, atomics inside Handle): the uninstrumented `bare-priority` family. `meta.json` of each\n'
       '   change records what was run and seen.\n')
     if seeded:
         bad = [(n, c, v) for n, l in seeded.items() for c, v in l if v != 'CAUGHT']
@@ -182,7 +194,7 @@ def main():
           '   pairs, %d caught%s.\n' % (sum(len(l) for l in seeded.values()), sum(1 for l in seeded.values() for c, v in l if v == 'CAUGHT'),
                                          '' if not bad else '; not caught: ' + ', '.join('%s/%s(%s)' % b for b in bad)))
     w('4. Anything a realistic break leaves invisible gets more observability (another workload or observation\n'
-      '   point), not cleverer inference - that is what the eight misses were used for.\n')
+      '   point), not cleverer inference - that is what the misses were used for.\n')
     return '\n'.join(out)
 
 
